@@ -3,6 +3,7 @@ import Emerge.Proofs.Follow2
 import Emerge.Proofs.Subset
 import Emerge.Proofs.FollowDenote
 import Emerge.Proofs.Spined
+import Emerge.Proofs.SubsetFuel
 import Emerge.Inst.Regex
 /-
   C10 — the direct (followpos) pattern-to-DFA construction.
@@ -140,6 +141,20 @@ theorem C10_direct_route (s : List Rune) (p : Pat)
     (hd : toDFA? (build Gen.Regex.runeClasses p) = some d) (w : List Rune) (hw : NoNul w) :
     d.accepts (build Gen.Regex.runeClasses p) w = true ↔ p.denote Gen.Regex.runeClasses w :=
   C10_dfa_documented p (parsePat_spined _ _ _ s p hp) d hd w hw
+
+/-- **The loop of `ToDFA` terminates**: its states are pairwise different sets of the tree's positions, at most `2^n` of
+    them - the model always returns an automaton (its fuel, `2^n + 1`, is never exhausted). -/
+theorem C10_todfa_total (T : ClassTable) (p : Pat) : ∃ d, toDFA? (build T p) = some d := toDFA_some (build_marked T p)
+
+/-- **The direct route, without hypotheses**: for every pattern text the pattern grammar accepts there is an automaton
+    - the one the model of `ast.Parse` + `ToDFA` returns - and it accepts a string without NUL iff the pattern matches it
+    under the documented meaning. -/
+theorem C10_direct_route_total (s : List Rune) (p : Pat)
+    (hp : parsePat Gen.Regex.rules Gen.Regex.top Gen.Regex.runeClasses s = .ok p) :
+    ∃ d, toDFA? (build Gen.Regex.runeClasses p) = some d ∧
+      ∀ w, NoNul w → (d.accepts (build Gen.Regex.runeClasses p) w = true ↔ p.denote Gen.Regex.runeClasses w) := by
+  obtain ⟨d, hd⟩ := C10_todfa_total Gen.Regex.runeClasses p
+  exact ⟨d, hd, fun w hw => C10_direct_route s p hp d hd w hw⟩
 
 /-- Non-vacuity: `ab*` and `\xEEEE|a` (a pattern that itself contains the end-marker character): the loop terminates,
     and the automaton accepts and rejects as the theorem says. -/
